@@ -56,6 +56,43 @@ theorem open_absent_iff (c : Chain) (p : Str) :
       obtain ⟨j, L, _, hj, hl, _⟩ := openFrom_some h'
       have := h j L hj; rw [hl] at this; cases this
 
+/-- (1b) METADATA come from that layer alone: `fs.Stat` on the overlay answers with the kind and size of the entry held by the first non-nil
+    layer that has the path — nothing of a lower layer's entry of the same name shows -/
+theorem stat_first_layer (c : Chain) (p : Str) (k : Nat) (d : Bool) (n : Nat) :
+    stat c p = some (k, d, n) ↔
+      ∃ (L : Layer) (e : Entry), c[k]? = some (some L) ∧ L.look p = some e ∧ e.info = (d, n) ∧
+        ∀ j < k, ∀ L' : Layer, c[j]? = some (some L') → L'.look p = none := by
+  unfold stat
+  constructor
+  · intro h
+    cases ho : «open» c p with
+    | none => rw [ho] at h; cases h
+    | some r =>
+      obtain ⟨k', e⟩ := r
+      rw [ho] at h
+      simp only [Option.map_some, Option.some.injEq, Prod.mk.injEq] at h
+      obtain ⟨hk, hi⟩ := h
+      subst hk
+      obtain ⟨L, h1, h2, h3⟩ := (open_first_layer c p k' e).mp ho
+      exact ⟨L, e, h1, h2, hi, h3⟩
+  · rintro ⟨L, e, h1, h2, hi, h3⟩
+    rw [(open_first_layer c p k e).mpr ⟨L, h1, h2, h3⟩]
+    simp [hi]
+
+/-- (2b) … and a path in no layer has no metadata either: in particular an overlay whose layers are all nil reports not-exist for every
+    name, the root included -/
+theorem stat_absent_iff (c : Chain) (p : Str) :
+    stat c p = none ↔ ∀ (j : Nat) (L : Layer), c[j]? = some (some L) → L.look p = none := by
+  unfold stat
+  rw [Option.map_eq_none_iff]
+  exact open_absent_iff c p
+
+theorem stat_of_nil_layers (n : Nat) (p : Str) : stat (List.replicate n none) p = none := by
+  rw [stat_absent_iff]
+  intro j L h
+  rw [List.getElem?_replicate] at h
+  split at h <;> cases h
+
 /-- (3) the listing is strictly sorted by name (so it is duplicate-free), whatever the rule. -/
 theorem readdir_sorted (c : Chain) (p : Str) (l : List MEntry) (h : readDir c p = some l) :
     l.Pairwise (fun a b => a.1 < b.1) := by
